@@ -1,4 +1,19 @@
-"""C09 — a rejected host call leaves the story exactly as it was."""
+"""C09 — a rejected host call leaves the story exactly as it was.
+
+Strengthened twice against seeded changes:
+ * C09  (choose_choice_index indexed the raw choice list): CHOOSE_END k ops (index = number of offered choices + k);
+ * C09b (bind_external_function replaced the stored binding before rejecting the second one): the REGISTRATION class.
+   A rejected call is only a meaningful probe when it carries arguments that WOULD change behaviour if it took
+   effect, and when the continuation observes the registration it could have touched.  So, besides the plain
+   programs, every program is also played in a "host provides the functions" variant: its EXTERNALs (and up to two
+   of its ink functions, re-declared EXTERNAL so that their ink bodies become the fallbacks) are bound to host
+   handlers in the setup, the exploration tree is taken under those bindings, and the rejected calls include a
+   re-bind of each bound name with a DIFFERENT handler (other return value / echo) and with a DIFFERENT
+   lookahead_safe flag, plus observer (un)registrations aimed at the observer and the variable that ARE registered.
+   The later lines (text, handler-call events x(..) with their line stamps, observer events) are compared in
+   lock-step with the un-injected history, and a stratified sample of these cases goes through engine.compare
+   (the model's HBind checks before it inserts).
+"""
 import json, re
 import vlib, engine
 from props import hist
@@ -31,6 +46,87 @@ BAD_CALLS = [
 # only where the story cannot continue
 CONT_WHEN_STUCK = ("cont-when-cannot-continue", ["CONT"])
 CONT_ASYNC_WHEN_STUCK = ("cont-async-when-cannot-continue", ["CONT_ASYNC", [1]])
+
+# regression corpus of the registration class (minimised demonstration inputs of seeded changes)
+REGRESSION = [
+    # C09b: a rejected second binding must not replace the first handler
+    """EXTERNAL answer()
+VAR n = 0
+The answer is {answer()}.
+~ n = answer() + 1
+Then {n}.
+* [again {answer()}] Again {answer()}.
+  -> END
+* [stop] -> END
+=== function answer() ===
+~ return 0
+""",
+]
+# generator weights of the extra function-heavy programs (their functions become host functions)
+FUNC_HEAVY = dict(n_funcs=(1, 2), func_call=2.5, inl_call=1.2, eval_call=1.5, pure_func=0.5)
+OTHER_RET = {"i": 977}
+
+
+def externalised(prog, max_new=2):
+    """the 'host provides the functions' variant of a program: every EXTERNAL it declares, plus up to `max_new`
+    of its ink functions re-declared EXTERNAL (the ink body stays as the fallback), to be bound in the setup.
+    None when the program has neither."""
+    src = prog["ink"]
+    exts = list(prog["externals"])
+    names = {f for f, _ in exts}
+    decl = []
+    for m in re.finditer(r"^\s*===\s*function\s+([A-Za-z_][A-Za-z0-9_]*)\s*\(([^)]*)\)", src, re.M):
+        f, args = m.group(1), m.group(2)
+        if f in names or "ref " in args or "->" in args:
+            continue
+        if len(decl) >= max_new:
+            break
+        ar = [a.strip() for a in args.split(",") if a.strip()]
+        decl.append(f"EXTERNAL {f}({', '.join(ar)})")
+        exts.append((f, len(ar)))
+        names.add(f)
+    if not exts:
+        return None
+    return dict(prog, id=prog["id"] + "+ext", ink=("\n".join(decl) + "\n" + src) if decl else src, externals=exts)
+
+
+def bindings(prog):
+    """(name, lookahead_safe, handler behaviour) of every EXTERNAL of the program, as bound by setup_bound"""
+    out = []
+    for i, (f, n) in enumerate(prog["externals"]):
+        if i % 2 == 0:
+            out.append((f, True, {"i": 7}))
+        else:
+            out.append((f, False, "echo" if n > 0 else {"i": 3}))
+    return out
+
+
+def bind_ops(prog):
+    return [["BIND", f, safe, ret] for f, safe, ret in bindings(prog)]
+
+
+def setup_bound(prog):
+    return setup(prog) + bind_ops(prog)
+
+
+def registration_calls(prog, bound):
+    """calls that are refused (or have nothing to act on) but are aimed at what IS registered: they would change
+    which handler / observer the story talks to if they took effect"""
+    calls = []
+    for f, safe, ret in (bindings(prog) if bound else []):
+        calls.append(("rebind-other-handler", ["BIND", f, safe, OTHER_RET]))
+        calls.append(("rebind-other-flag", ["BIND", f, not safe, ret]))
+        if ret != "echo" and dict(prog["externals"]).get(f, 0) > 0:
+            calls.append(("rebind-echo-handler", ["BIND", f, safe, "echo"]))
+        calls.append(("rebind-other-handler-and-flag", ["BIND", f, not safe, OTHER_RET]))
+    calls.append(("rebind-dummy-other-handler", ["BIND", "verif_dummy_ext", False, OTHER_RET]))
+    calls.append(("observe-undeclared-registered-observer", ["OBSERVE", "obsA", "no_such_var"]))
+    g = prog["globals"]
+    if g:
+        calls.append(("unobserve-unregistered-observer-watched-var", ["UNOBSERVE", "obs_never", g[0]]))
+    if len(g) > 1:
+        calls.append(("unobserve-registered-observer-unwatched-var", ["UNOBSERVE", "obsA", g[1]]))
+    return calls
 
 
 def setup(prog):
@@ -80,6 +176,45 @@ def run(ctx):
                     cases.append(dict(id=cid, ink=p["ink"], seed=42, fuel=20000,
                                       script=st + ops[:k] + [call] + ops[k:] + [["SHOWSAVE"]]))
                     meta[cid] = dict(kind="inj", base=base_id, k=k, name=name, call=call, prog=p, n_setup=len(st))
+                # calls aimed at what IS registered (observer obsA on the first global, the dummy binding)
+                for i, (name, call) in enumerate(registration_calls(p, bound=False)):
+                    for k in positions:
+                        cid = f"{p['id']}|{path}|{k}|{name}#{i}"
+                        cases.append(dict(id=cid, ink=p["ink"], seed=42, fuel=20000,
+                                          script=st + ops[:k] + [call] + ops[k:] + [["SHOWSAVE"]]))
+                        meta[cid] = dict(kind="inj", base=base_id, k=k, name=name, call=call, prog=p,
+                                         n_setup=len(st), cls="registration")
+
+    # ---- the registration class: the same programs with their functions provided by the host
+    nheavy = 3 if ctx.quick() else 20
+    heavy = [dict(q, id="f" + q["id"]) for q in hist.programs(ctx, len(hist.BUILTIN) + nheavy, **FUNC_HEAVY)
+             if q["id"].startswith("gen")]
+    regress = [dict(id=f"c09-regression{i}", ink=src, **hist.analyse(src)) for i, src in enumerate(REGRESSION)]
+    variants = [v for v in (externalised(q) for q in regress + progs + heavy) if v]
+    n_bound_progs = 0
+    for p in variants:
+        st = setup_bound(p)
+        # the tree of THIS world: fallbacks allowed, host handlers bound
+        t = hist.explore_tree(exe, [p], depth=3, max_paths=20, setup=hist.setup_ops(p) + bind_ops(p)).get(p["id"])
+        if not t:
+            continue
+        n_bound_progs += 1
+        calls = registration_calls(p, bound=True) + bad_calls_for(p)
+        for (path, ops) in hist.histories(ctx, t, 2 if ctx.quick() else 4):
+            base_id = f"{p['id']}|{path}|base"
+            cases.append(dict(id=base_id, ink=p["ink"], seed=42, fuel=20000, script=st + ops + [["SHOWSAVE"]]))
+            meta[base_id] = dict(kind="base", prog=p, n_setup=len(st), ops=ops)
+            positions = list(range(len(ops) + 1))
+            if ctx.quick() and len(positions) > 5:
+                # always right after the setup (nothing played yet) and at the very end
+                positions = sorted({0, len(ops)} | set(ctx.rng.sample(positions[1:-1], 3)))
+            for i, (name, call) in enumerate(calls):
+                for k in positions:
+                    cid = f"{p['id']}|{path}|{k}|{name}#{i}"
+                    cases.append(dict(id=cid, ink=p["ink"], seed=42, fuel=20000,
+                                      script=st + ops[:k] + [call] + ops[k:] + [["SHOWSAVE"]]))
+                    meta[cid] = dict(kind="inj", base=base_id, k=k, name=name, call=call, prog=p, n_setup=len(st),
+                                     cls="registration" if name.startswith(("rebind-", "observe-", "unobserve-")) else "bound")
     res = {r["id"]: r for r in vlib.run_inkdrive(cases, exe)}
 
     fails, n_checked, kinds = [], 0, {}
@@ -120,9 +255,17 @@ def run(ctx):
             fails.append(f)
 
     # correspondence on a sample (model has no SHOWSAVE: strip it)
-    sample = [c for c in cases if meta[c["id"]]["kind"] == "inj"]
+    sample = [c for c in cases if meta[c["id"]]["kind"] == "inj" and not meta[c["id"]].get("cls")]
     ctx.rng.shuffle(sample)
     sample = sample[: (120 if ctx.quick() else 1500)]
+    # stratified: the registration class (re-binds first) and the other calls in the host-functions world
+    for cls, pref, n in (("registration", "rebind-", 30 if ctx.quick() else 400),
+                         ("registration", "", 15 if ctx.quick() else 200), ("bound", "", 15 if ctx.quick() else 200)):
+        have = {c["id"] for c in sample}
+        more = [c for c in cases if meta[c["id"]].get("cls") == cls and meta[c["id"]]["name"].startswith(pref)
+                and c["id"] not in have]
+        ctx.rng.shuffle(more)
+        sample += more[:n]
     mcases = [dict(c, script=c["script"][:-1], id="m:" + c["id"]) for c in sample]
     cres = engine.compare(mcases, exe, sw)
     mism = [r for r in cres if r["status"] in ("mismatch", "model-error")]
@@ -130,10 +273,13 @@ def run(ctx):
 
     ctx.coverage.update(dict(
         evaluations=len(cases), distinct_nontrivial=n_checked,
-        rule="programs (built-in + generated/corpus) x histories along explored paths x every position x each kind of "
-             "invalid call; non-trivial = the injected call was invalid at that point and the lock-step comparison ran",
+        rule="programs (built-in + generated/corpus, each also with its functions bound to host handlers) x histories "
+             "along explored paths x every position x each kind of invalid call (incl. re-binding a bound name to another "
+             "handler / flag); non-trivial = the injected call was invalid at that point and the lock-step comparison ran",
         samples=[cases[1]["script"] if len(cases) > 1 else [], dict(kinds=kinds)],
-        traces_validated_against_impl=agree, correspondence_mismatches=len(mism), programs=len(progs)))
+        traces_validated_against_impl=agree, correspondence_mismatches=len(mism), programs=len(progs),
+        programs_with_host_functions=n_bound_progs,
+        registration_class_checked=sum(v for k_, v in kinds.items() if k_.startswith(("rebind-", "observe-", "unobserve-")))))
 
     seen = set()
     for f in fails:
